@@ -46,8 +46,8 @@ MulIdent == Ready => (/\ Mul(a, b) = Mul(b, a) /\ Mul(a, One) = a /\ Mul(a, Zero
             /\ Mul(a, Add(b, One)) = Add(Mul(a, b), a))
 BitIdent == Ready => (/\ BXor(BAnd(a, b), BOr(a, b)) = BXor(a, b) /\ BAnd(a, BNot(a)) = Zero /\ BOr(a, BNot(a)) = Ones
             /\ Add(BAnd(a, b), BOr(a, b)) = Add(a, b))
-RECURSIVE TwoPow(_)
-TwoPow(n) == IF n = 0 THEN One ELSE LET t == TwoPow(n - 1) IN Add(t, t)
+\* 2^n as a word, closed form (a doubling recursion would be re-evaluated 2^n times by TLC)
+TwoPow(n) == [i \in 1..W |-> IF i = (n \div 8) + 1 THEN Pow2(n % 8) ELSE 0]
 ShiftIdent == Ready => (\A n \in ({0, 1, 3, 7, 8, 9, Bits - 1, Bits} \cap (0..Bits)) :
    /\ Asl(a, FromInt(n)) = (IF n = Bits THEN Zero ELSE Mul(a, TwoPow(n)))
    /\ Asr(a, FromInt(n)) = (IF n = Bits THEN (IF IsNeg(a) THEN Ones ELSE Zero)
